@@ -31,8 +31,9 @@ def atoms_to_spec(a: Atoms, meta=None) -> dict:
     }
     if "tags" in a.arrays:
         d["tags"] = [int(t) for t in a.arrays["tags"]]
-    if a.info:
-        d["info"] = {str(k): v for k, v in a.info.items()}
+    info = {str(k): v for k, v in a.info.items() if isinstance(v, (str, int, float, bool))}
+    if info:
+        d["info"] = info
     if a.constraints:
         idx = []
         for c in a.constraints:
